@@ -109,7 +109,7 @@ def run(ctx):
                     "id_prefix": rng.choice([None, "", "x-"]), "conv": rng.choice(["data_uri", "data_uri", "counting", "no_open"])}
             html, md, raw = run_all(data, opts, path)
             ctx.count()
-            meta = {"body": [xml_json(x) for x in pkg.body], "options": opts, "kind": kind, "named": named, "index": i}
+            meta = {"package": gen_xml.pkg_json(pkg), "body": [xml_json(x) for x in pkg.body], "options": opts, "kind": kind, "named": named, "index": i}
             if valid:
                 dist["valid"] += 1
                 bad = oracle(html, md, raw)
@@ -141,12 +141,7 @@ def run(ctx):
 
 def replay(ctx, rep):
     r = rep["replay"]
-    pkg = gen_xml.Package()
-    pkg.body = [gen_xml.xml_from_json(j) for j in r["body"]]
-    if r.get("styles"):
-        pkg.styles = [gen_xml.xml_from_json(j) for j in r["styles"]]
-    if r.get("numbering"):
-        pkg.numbering = [gen_xml.xml_from_json(j) for j in r["numbering"]]
+    pkg = gen_xml.pkg_from_json(r["package"])
     data, _ = B.build(pkg)
     html, md, raw = run_all(data, r["options"], None)
     bad = oracle(html, md, raw)
